@@ -716,6 +716,8 @@ pub fn contract_integer_set_expression<C: Ctx>(cx: &mut C) {
             vob!(cx, "C04.fold.upper_bound_is_per_visible_effective", got.hi == reference.hi);
             // flagged extensible exactly when the constraint carries an extension marker (operands carry none here)
             vob!(cx, "C04.fold.extensible_iff_the_constraint_carries_a_marker", (got.lo.is_none() && got.hi.is_none()) || r.is_extensible() == outer_marker);
+            // C06: this flag is what Rasn::int_type_token receives for components — a marker must reach it
+            vob!(cx, "C06.component_path.marker_reaches_the_width_selection", (got.lo.is_none() && got.hi.is_none()) || !outer_marker || r.is_extensible());
         }
         Err(_) => { vob!(cx, "C04.fold.folds_without_error", false); }
     }
